@@ -390,6 +390,9 @@ func genC12(t *rapid.T) *C12Scenario {
 		if e.Op == "deliver" {
 			e.I = 0
 		}
+		if e.Op == "blockwin" {
+			e = C01Event{Op: "blockstep"}
+		}
 		evs = append(evs, e)
 	}
 	plan.Events = evs
